@@ -54,7 +54,7 @@ func TextConsumer() Consumer {
 		}
 
 		t := reflect.TypeOf(data)
-		if data != nil && t.Kind() == reflect.Ptr {
+		if data != nil && t.Kind() == reflect.Ptr && !reflect.ValueOf(data).IsNil() {
 			v := reflect.Indirect(reflect.ValueOf(data))
 			if t.Elem().Kind() == reflect.String {
 				v.SetString(string(b))
